@@ -225,7 +225,7 @@ fn sfngen_new_one_char() {
     kani::cover!(g.basename_len == 0);
 }
 
-// @obl props=C15,C16 tier=quick fns=ShortNameGenerator::new,ShortNameGenerator::copy_short_name_part timeout=900
+// @obl props=C15,C16 tier=thorough fns=ShortNameGenerator::new,ShortNameGenerator::copy_short_name_part timeout=3000
 // @bound bounded: names of 2 or 3 ASCII characters, all symbolic (dots and spaces anywhere)
 // @desc ShortNameGenerator::new never panics and establishes inv_gen; the extension is what follows the LAST dot (a leading dot is not an extension separator)
 #[kani::proof]
